@@ -9,6 +9,7 @@ import Driver.Scheduler
 import Driver.EGraph
 import Driver.ProofCk
 import Driver.Containers
+import Driver.Displaced
 open Driver
 
 structure St where
@@ -18,6 +19,7 @@ structure St where
   tb : TbSt := {}
   eg : EgSt := {}
   ex : ExSt := {}
+  dt : EgglogVerif.Displaced.DT := {}
 
 def dispatch (s : St) (line : String) : St × String :=
   match (line.trimAscii.toString.splitOn " ").filter (· ≠ "") with
@@ -32,6 +34,7 @@ def dispatch (s : St) (line : String) : St × String :=
   | "eg" :: rest => let (p, o) := egStep s.eg rest; ({ s with eg := p }, o)
   | "pk" :: rest => (s, pkStep rest)
   | "cn" :: rest => (s, cnStep rest)
+  | "dt" :: rest => let (p, o) := dtStep s.dt rest; ({ s with dt := p }, o)
   | _ => (s, "bad-op")
 
 partial def loop (h : IO.FS.Stream) (out : IO.FS.Stream) (s : St) : IO Unit := do
